@@ -204,6 +204,14 @@ pub fn gen_cfg(id: &str, tier: Tier, variant: u64) -> GenCfg {
             g.weights.consume = 2;
             g
         }
+        // a panicking destructor must not stop the rest of an orphaned group from
+        // being destroyed before the drop "returns" (by unwinding)
+        "C03" if variant % 4 == 1 => {
+            let mut g = GenCfg::new(Mode::Safe, ops);
+            g.dact_pct = 40;
+            g.dact_panic = true;
+            g
+        }
         "C03" | "C04" => GenCfg::new(if variant % 2 == 0 { Mode::Full } else { Mode::Safe }, ops),
         "C09" => GenCfg::new(Mode::Full, ops),
         // elided unadopt combined with try_unwrap / make_mut (both give an
